@@ -223,6 +223,7 @@ pub fn gen_random(seed: u64, idx: u64) -> Plan {
                     body: Blob(sr.body.clone()),
                     delay_ms: r.range(0, 20),
                     req: j,
+                    cancel_ms: 0,
                 });
                 c.reqs.push(sr.plan);
                 nonce += 1;
